@@ -146,7 +146,7 @@ def wildcard_position_stratum(ctx, d, n):
 
 
 def run_shard(ctx):
-    d = drive.Driver(ctx, feat, flags="random", styles=("mixed", "runs", "dups", "tiny", "multisec"), judge_model=False, extra=monitor,
+    d = drive.Driver(ctx, feat, flags="random", styles=("mixed", "runs", "dups", "tiny", "multisec", "kernel"), judge_model=False, extra=monitor,
                      interesting=None)
     d.macros = [MACROS]
     d.loop(2500, 120000)
